@@ -7,12 +7,17 @@ package sched
 
 import (
 	"fmt"
+	"os"
+	"runtime/pprof"
 	"sync"
 	"sync/atomic"
 	"time"
 )
 
-const hangTimeout = 60 * time.Second
+var hangTimeout = 60 * time.Second
+
+// SetHangTimeout changes how long a thread may run without reaching a scheduling point.
+func SetHangTimeout(d time.Duration) { hangTimeout = d }
 
 type OpKind int
 
@@ -57,6 +62,10 @@ type Run struct {
 	// Hung is set when a thread blocked outside the scheduler's model (harness limitation)
 	Hung     string
 	panicVal any
+	// TolerateDivergence: a prefix that cannot be replayed sets Diverged instead of panicking (the threads
+	// of that execution stay parked for good)
+	TolerateDivergence bool
+	Diverged           bool
 	// Atomics: atomic operations of the shimmed packages are scheduling points too (vatomic)
 	Atomics bool
 	// evaluating: the driver is computing the enabled set (wait conditions may run shimmed atomics)
@@ -136,6 +145,12 @@ func (r *Run) Execute() {
 		if pos < len(r.prefix) {
 			c = r.prefix[pos]
 			if c >= len(en) {
+				if r.TolerateDivergence {
+					// the execution is not a function of the schedule alone (Go map iteration order inside the
+					// code under test changed what is enabled here): the caller runs the prefix again
+					r.Diverged = true
+					return
+				}
 				panic(fmt.Sprintf("sched: replay divergence at decision %d: choice %d of %d; trace %v", pos, c, len(en), r.Trace))
 			}
 		}
@@ -161,6 +176,10 @@ func (r *Run) Execute() {
 			// the running thread blocked in something the scheduler does not model (a real lock, a channel):
 			// this is a limitation of the harness, reported as such and never as a property violation
 			r.Hung = fmt.Sprintf("thread %s did not reach a scheduling point within %v; trace %v", t.name, hangTimeout, r.Trace)
+			if f, err := os.Create(os.TempDir() + "/verif-sched-hang.stacks"); err == nil {
+				_ = pprof.Lookup("goroutine").WriteTo(f, 2)
+				f.Close()
+			}
 			return
 		}
 		if r.panicVal != nil {
